@@ -135,6 +135,54 @@ fn check(c: &CrashCase, obs: &mut O) -> Verdict {
         obs.sub_evals += 1;
         crate::engine::heartbeat();
     }
+    // ---- three-run variant: crash late in the file, then a COMPLETE run whose download is a little shorter (the bank no longer
+    // reports a few early observations; everything it still reports is unchanged), then the look-ups.  A left-over temporary file
+    // from the crash must not leak its tail into the file the complete run publishes.
+    let mut cal2v = c.cal.clone();
+    let early: Vec<Date> = cal2v.days.iter().filter(|(d, o)| d.year() == c.year && matches!(o, crate::fxfake::Obs::Published(_))).map(|(d, _)| *d).take(4).collect();
+    for d in &early { cal2v.days.remove(d); }
+    let cal2 = Rc::new(cal2v);
+    let mid_today = c.today + Duration::days(1);
+    let mut three_run = 0u64;
+    for b in (total.saturating_sub(60)..total).filter(|b| *b > 0) {
+        let p = CrashPoint::AfterBytes(b);
+        let _ = std::fs::remove_dir_all(&dir);
+        let _ = std::fs::create_dir_all(&dir);
+        { let mut first_of: BTreeMap<u64, std::path::PathBuf> = BTreeMap::new(); for (n, bts, ino) in &template_files { match first_of.get(ino) { Some(orig) if *ino != 0 => { let _ = std::fs::hard_link(orig, dir.join(n)); } _ => { let _ = std::fs::write(dir.join(n), bts); first_of.insert(*ino, dir.join(n)); } } } }
+        acb::util::date::set_todays_date_for_test(c.today);
+        set_crash_point(Some(p.clone()));
+        let calls = Rc::new(RefCell::new(BTreeMap::new()));
+        let r = std::panic::catch_unwind(std::panic::AssertUnwindSafe(|| { let mut l = loader(&dir, &cal, c.today, &calls); l.blocking_get_effective_usd_cad_rate(c.requested) }));
+        set_crash_point(None);
+        if let Err(e) = r { if e.downcast_ref::<SimulatedCrash>().is_none() { let _ = std::fs::remove_dir_all(&dir); return Verdict::Fail(format!("unexpected panic while writing the cache at {:?}", p)); } }
+        // the complete run
+        acb::util::date::set_todays_date_for_test(mid_today);
+        let calls_mid = Rc::new(RefCell::new(BTreeMap::new()));
+        { let mut lm = loader(&dir, &cal2, mid_today, &calls_mid); let _ = guard(|| lm.blocking_get_effective_usd_cad_rate(c.requested)); }
+        let _ = take_step_log();
+        let text = std::fs::read_to_string(dir.join(format!("rates-{}.csv", c.year))).unwrap_or_default();
+        let mut dates_present: Vec<Date> = text.lines().filter_map(|l| l.split(',').next().and_then(crate::gen::parse_date)).collect();
+        dates_present.sort(); dates_present.dedup();
+        acb::util::date::set_todays_date_for_test(later_today);
+        let calls3 = Rc::new(RefCell::new(BTreeMap::new()));
+        let mut l3 = loader(&dir, &cal2, later_today, &calls3);
+        let mut looks: Vec<Date> = dates_present.iter().rev().take(4).cloned().collect();
+        looks.push(c.requested);
+        for d in looks {
+            if let Ok(Ok(r)) = guard(|| l3.blocking_get_effective_usd_cad_rate(d)) {
+                let truth = cal2.published(r.date);
+                if truth != Some(r.foreign_to_local_rate) {
+                    let tail: String = text.chars().rev().take(80).collect::<String>().chars().rev().collect();
+                    let _ = std::fs::remove_dir_all(&dir);
+                    return known_or_fail("F-14a", format!("cache write interrupted at {:?} (of {total} bytes), then a complete run that downloads a slightly shorter year (the bank no longer reports {:?}); a later run looking up {d} computes with {} for {}, the bank publishes {:?}; cache file now ends with {:?}", p, early, r.foreign_to_local_rate, r.date, truth, tail));
+                }
+            }
+        }
+        three_run += 1;
+        obs.sub_evals += 1;
+        crate::engine::heartbeat();
+    }
+    if three_run > 0 { obs.class("three-run:crash-then-shorter-complete-write"); }
     let _ = std::fs::remove_dir_all(&dir);
     for (k, v) in outcomes { obs.class(format!("{k}(x{})", if v > 1000 { ">1000" } else if v > 100 { ">100" } else { "<=100" })); }
     obs.class(format!("steps:{}", steps.join("+")));
@@ -143,7 +191,7 @@ fn check(c: &CrashCase, obs: &mut O) -> Verdict {
 }
 
 pub fn def() -> PropDef {
-    let mut d = PropDef::new("C14", "fault enumeration: for each generated year content (50-366 rows; rates with 1-10 decimals, below and above 1, zero placeholders for unpublished days) and prior cache state (none / the directory exactly as an earlier complete run of the product left it, hard links and left-over files included), a run that downloads the year is interrupted at EVERY byte offset of the cache file write (0..len, via the verif_hooks CrashWriter) and at every named step boundary of the write procedure; after each crash a fresh loader (today + 3 days, remote = published calendar) looks up the last three dates present in the file, the first missing date, the interrupted run's date and 5 random dates. Violation = a look-up returns a rate that differs from the published rate of the date it carries. Non-trivial = crash point strictly inside a row (file does not end in a newline). Distinct = distinct (content, crash point).");
+    let mut d = PropDef::new("C14", "fault enumeration: for each generated year content (50-366 rows; rates with 1-10 decimals, below and above 1, zero placeholders for unpublished days) and prior cache state (none / the directory exactly as an earlier complete run of the product left it, hard links and left-over files included), a run that downloads the year is interrupted at EVERY byte offset of the cache file write (0..len, via the verif_hooks CrashWriter) and at every named step boundary of the write procedure; after each crash a fresh loader (today + 3 days, remote = published calendar) looks up the last three dates present in the file, the first missing date, the interrupted run's date and 5 random dates. In addition, for the last 60 byte offsets of each content: crash, then a COMPLETE run whose download is a few bytes shorter (the bank no longer reports four early observations, nothing else changes), then the look-ups. Violation = a look-up returns a rate that differs from the published rate of the date it carries. Non-trivial = crash point strictly inside a row (file does not end in a newline). Distinct = distinct (content, crash point).");
     d.level = "fault_enumeration";
     d.exhaustive = true;
     d.assumptions = vec!["crash model: operations persist in program order (what the hook sees); a filesystem that reorders un-synced writes behind a rename is outside this model", "byte offsets are exhaustive per generated content; contents are sampled"];
